@@ -70,20 +70,28 @@ Theorem no_declaration_activated s name src :
   active s = true -> get_contracts (m_body src) = [] ->
   fst (import_module s name src) = fst (let r := exec_body s src [] in match r with IOk => ({| meta_path := meta_path s; enabled := enabled s; loaded := name :: loaded s |}, IOk) | e => (s, e) end)
   /\ snd (import_module s name src) = exec_body s src [].
-Proof. intros Ha H. unfold import_module. rewrite Ha, H. cbn. destruct (exec_body s src []); split; reflexivity. Qed.
+Proof. intros Ha H. unfold import_module. rewrite Ha, H. cbn. destruct (enabled s); cbn; destruct (exec_body s src []); split; reflexivity. Qed.
 
 (* an unsupported declaration is rejected loudly: the import fails and nothing is registered *)
 Theorem unsupported_loud s name src e rest :
-  active s = true -> get_contracts (m_body src) = e :: rest -> exec_contract e = CNone ->
+  active s = true -> enabled s = true -> get_contracts (m_body src) = e :: rest -> exec_contract e = CNone ->
   import_module s name src = (s, IExc "RuntimeError").
-Proof. intros Ha Hg He. unfold import_module. rewrite Ha, Hg. cbn. rewrite He. reflexivity. Qed.
+Proof. intros Ha Hen Hg He. unfold import_module. rewrite Ha, Hen, Hg. cbn. rewrite He. reflexivity. Qed.
+(* with contracts disabled the loader is inert: the import is the plain import, whatever the source declares (supported or not) *)
+Theorem disabled_import_plain s name src :
+  enabled s = false ->
+  import_module s name src =
+    (let r := exec_body s src [] in
+     match r with IOk => ({| meta_path := meta_path s; enabled := enabled s; loaded := name :: loaded s |}, IOk) | x => (s, x) end).
+Proof. intro Hen. unfold import_module. rewrite Hen. destruct (active s); cbn; destruct (exec_body s src []); reflexivity. Qed.
 
 (* a failed import leaves no module registered; a successful one registers exactly that module *)
 Theorem failed_import_not_registered s name src s1 c :
   import_module s name src = (s1, IExc c) -> s1 = s.
 Proof.
   unfold import_module. destruct (active s).
-  - destruct (get_contracts (m_body src)) as [|e rest].
+  - cbn [negb]. destruct (enabled s); cbn [negb]; [|destruct (exec_body s src []); intro H; inversion H; reflexivity].
+    destruct (get_contracts (m_body src)) as [|e rest].
     + cbn. destruct (exec_body s src []); intro H; inversion H; reflexivity.
     + cbn. match goal with |- context [match ?x with inl _ => _ | inr _ => _ end] => destruct x end.
       * destruct (exec_body s src _); intro H; inversion H; reflexivity.
@@ -99,7 +107,7 @@ Theorem declared_enforced s name src e c :
   import_module s name src =
     (let r := exec_body s src (if enabled s then [c] else []) in
      match r with IOk => ({| meta_path := meta_path s; enabled := enabled s; loaded := name :: loaded s |}, IOk) | x => (s, x) end).
-Proof. intros Ha Hg He. unfold import_module. rewrite Ha, Hg. cbn. rewrite He. cbn. reflexivity. Qed.
+Proof. intros Ha Hg He. unfold import_module. rewrite Ha, Hg. cbn. destruct (enabled s); cbn; [rewrite He; cbn|]; reflexivity. Qed.
 Theorem print_under_pure_fails s name src e :
   active s = true -> enabled s = true -> get_contracts (m_body src) = [e] -> exec_contract e = CSome KPure ->
   run_time_call s src = None -> m_prints src = true ->
@@ -126,10 +134,10 @@ Proof.
   destruct (existsb (String.eqb attr) deal_names); discriminate.
 Qed.
 Theorem bare_factory_rejected s name src attr rest :
-  active s = true -> get_contracts (m_body src) = CAttr "deal" attr :: rest -> attr <> "pure" -> attr <> "safe" ->
+  active s = true -> enabled s = true -> get_contracts (m_body src) = CAttr "deal" attr :: rest -> attr <> "pure" -> attr <> "safe" ->
   import_module s name src = (s, IExc "RuntimeError").
 Proof.
-  intros Ha Hg Hp Hs. apply (unsupported_loud s name src (CAttr "deal" attr) rest Ha Hg).
+  intros Ha Hen Hg Hp Hs. apply (unsupported_loud s name src (CAttr "deal" attr) rest Ha Hen Hg).
   destruct (exec_contract (CAttr "deal" attr)) as [c| |] eqn:E; [|reflexivity|].
   - apply bare_contract_pure_or_safe in E. destruct E as [_ [[E _]|[E _]]]; contradiction.
   - exfalso. revert E. unfold exec_contract, deal_attr. cbn [String.eqb Ascii.eqb Bool.eqb negb].
